@@ -657,10 +657,82 @@ Section Dom.
   Definition fetch_log (c : cfg) (k : fkind) (st : lst) (targets : list str) : list query :=
     map (fun a => (qk k, a)) (filter (fun a => negb (c_cache c && tracked k st a)) targets).
 
+  (** the inverse part skips what the direct part has yielded *)
+  Lemma events_skip T bs : events_of (map (skip_direct T) bs) = filter (keep_inverse T) (events_of bs).
+  Proof.
+    unfold events_of. induction bs as [|b bs IH]; cbn; auto. rewrite filter_app, IH. reflexivity.
+  Qed.
+
+  Lemma yields_keep T evs :
+    yields (filter (keep_inverse T) evs) = filter (fun t => negb (mem_str (nid (ts t)) T)) (yields evs).
+  Proof.
+    induction evs as [|[q|t|e] evs IH]; cbn; auto.
+    destruct (negb (mem_str (nid (ts t)) T)); cbn; rewrite IH; reflexivity.
+  Qed.
+
+  Lemma queries_keep T evs : queries (filter (keep_inverse T) evs) = queries evs.
+  Proof.
+    induction evs as [|[q|t|e] evs IH]; cbn; auto; [rewrite IH; reflexivity|].
+    destruct (negb (mem_str (nid (ts t)) T)); cbn; exact IH.
+  Qed.
+
+  Lemma noEX_keep T evs : existsb is_EX (filter (keep_inverse T) evs) = existsb is_EX evs.
+  Proof.
+    induction evs as [|[q|t|e] evs IH]; cbn; auto.
+    destruct (negb (mem_str (nid (ts t)) T)); cbn; exact IH.
+  Qed.
+
+  Lemma last_st_skip T st bs : last_st st (map (skip_direct T) bs) = last_st st bs.
+  Proof. revert st. induction bs; intros st; cbn; auto. Qed.
+
+  Lemma Permutation_filter' {A} (f : A -> bool) (l l' : list A) :
+    Permutation l l' -> Permutation (filter f l) (filter f l').
+  Proof.
+    induction 1; cbn; auto.
+    - destruct (f x); auto.
+    - destruct (f x), (f y); auto. apply perm_swap.
+    - eapply perm_trans; eauto.
+  Qed.
+
+  Lemma filter_filter {A} (f g : A -> bool) (l : list A) :
+    filter f (filter g l) = filter (fun x => g x && f x) l.
+  Proof. induction l as [|x l IH]; cbn; auto. destruct (g x); cbn; [destruct (f x)|]; rewrite IH; reflexivity. Qed.
+
+  Lemma filter_local_commute (f : triple -> bool) (l : list striple) :
+    filter f (map local_of l) = map local_of (filter (fun x => f (local_of x)) l).
+  Proof. induction l as [|x l IH]; cbn; auto. destruct (f (local_of x)); cbn; rewrite IH; reflexivity. Qed.
+
+  (** every statement touching a target, once *)
+  Lemma touching_perm T : Permutation (out_of T G ++ filter (fun t => negb (subj_in T t)) (into T G)) (touching true T G).
+  Proof.
+    unfold out_of, into, touching. rewrite filter_filter.
+    eapply perm_trans; [apply Permutation_sym; apply filter_or_disjoint|].
+    - intros x _ H. rewrite H. rewrite andb_false_r. reflexivity.
+    - apply Permutation_refl'. apply filter_ext. intros t. cbn [andb].
+      destruct (subj_in T t), (obj_in T t); reflexivity.
+  Qed.
+
+  Lemma skipped_into T :
+    filter (fun t => negb (mem_str (nid (ts t)) T)) (local_graph (into T G)) =
+    local_graph (filter (fun t => negb (subj_in T t)) (into T G)).
+  Proof.
+    unfold local_graph. rewrite filter_local_commute. f_equal. apply filter_ext_in.
+    intros t Ht. unfold into in Ht. apply filter_In in Ht. destruct Ht as [Ht _].
+    destruct (dom_facts _ Ht) as [s F]. unfold subj_in. cbn. rewrite (sf_subj _ _ _ F). reflexivity.
+  Qed.
+
+  Lemma yielder_blocks_eq c O pass st targets :
+    yielder_blocks c G O pass st targets =
+    traverse c G O pass false st targets ++
+    (if c_inverse c
+     then map (skip_direct targets) (traverse c G O pass true (last_st st (traverse c G O pass false st targets)) targets)
+     else []).
+  Proof. reflexivity. Qed.
+
   Lemma yielder_spec c O pass st targets :
     c_allow_num c = allow -> ord_ok O -> NoDup targets -> (forall a, In a targets -> plain a = true) -> Inv st ->
     let bs := yielder_blocks c G O pass st targets in
-    Permutation (yields (events_of bs)) (local_graph (neighbourhood (c_inverse c) targets G)) /\
+    Permutation (yields (events_of bs)) (local_graph (touching (c_inverse c) targets G)) /\
     existsb is_EX (events_of bs) = false /\
     queries (events_of bs) =
       fetch_log c FPO st targets ++ (if c_inverse c then fetch_log c FSP st targets else []) /\
@@ -670,7 +742,7 @@ Section Dom.
        tracked k' (last_st st bs) x =
        tracked k' st x || (c_cache c && (fk_eqb FPO k' || (c_inverse c && fk_eqb FSP k')) && mem_str x targets)).
   Proof.
-    intros Hal Hord HT Hpl I. unfold yielder_blocks.
+    intros Hal Hord HT Hpl I. cbv zeta. rewrite yielder_blocks_eq.
     rewrite (traverse_eq c O pass false st targets Hal Hord HT Hpl I).
     assert (Hk1 : FPO <> FTypes) by discriminate. assert (Hk2 : FSP <> FTypes) by discriminate.
     destruct (trav_spec c O pass FPO Hk1 Hal Hord targets [] st HT (fun _ _ H => H) Hpl I)
@@ -678,28 +750,34 @@ Section Dom.
     set (d := trav (fetch c G O pass FPO) [] st targets) in *.
     assert (P1 : Permutation (flat_map (fun a => map local_of (matches FPO a)) targets) (local_graph (out_of targets G))).
     { cbn [matches]. rewrite <- map_flat_map. apply Permutation_map. apply out_of_perm. exact HT. }
-    unfold neighbourhood, local_graph. destruct (c_inverse c) eqn:Ei.
+    destruct (c_inverse c) eqn:Ei.
     - rewrite (traverse_eq c O pass true (last_st st d) targets Hal Hord HT Hpl A4).
       destruct (trav_spec c O pass FSP Hk2 Hal Hord targets [] (last_st st d) HT (fun _ _ H => H) Hpl A4)
         as [B1 [B2 [B3 [B4 [B5 [_ B7]]]]]].
       set (e := trav (fetch c G O pass FSP) [] (last_st st d) targets) in *.
-      assert (P2 : Permutation (flat_map (fun a => map local_of (matches FSP a)) targets) (map local_of (into targets G))).
+      assert (P2 : Permutation (flat_map (fun a => map local_of (matches FSP a)) targets) (local_graph (into targets G))).
       { cbn [matches]. rewrite <- map_flat_map. apply Permutation_map. apply into_perm. exact HT. }
-      rewrite events_of_app, yields_app, queries_app, noEX_app, last_st_app, map_app.
+      rewrite events_of_app, yields_app, queries_app, noEX_app, last_st_app, events_skip, yields_keep, queries_keep,
+        noEX_keep, last_st_skip.
       split; [|split; [|split; [|split; [|split]]]].
-      + apply Permutation_app; eapply perm_trans; eauto.
+      + eapply perm_trans; [|unfold local_graph; apply Permutation_map; apply touching_perm].
+        rewrite map_app. apply Permutation_app; [eapply perm_trans; eauto|].
+        fold (local_graph (filter (fun t => negb (subj_in targets t)) (into targets G))).
+        rewrite <- skipped_into. apply Permutation_filter'. eapply perm_trans; eauto.
       + rewrite A2, B2. reflexivity.
       + rewrite A3, B3. unfold fetch_log. f_equal. f_equal. apply filter_ext. intros x.
         rewrite (A7 FSP x Hk2). cbn. rewrite andb_false_r, orb_false_r. reflexivity.
       + exact B4.
-      + apply Forall_app. auto.
+      + apply Forall_app. split; [exact A5|]. apply Forall_map. cbn. exact B5.
       + intros k' x Hk'. rewrite (B7 k' x Hk'), (A7 k' x Hk').
         destruct (c_cache c); cbn [andb]; [|rewrite !orb_false_r; reflexivity].
         rewrite <- orb_assoc. f_equal.
         destruct (fk_eqb FPO k'), (fk_eqb FSP k'); cbn; rewrite ?orb_false_r; auto.
         rewrite orb_diag. reflexivity.
     - rewrite !app_nil_r. split; [|split; [|split; [|split; [|split]]]]; auto.
-      + eapply perm_trans; eauto.
+      + eapply perm_trans; [exact A1|]. eapply perm_trans; [exact P1|].
+        apply Permutation_refl'. unfold touching, out_of, local_graph. f_equal. apply filter_ext.
+        intros t. rewrite orb_false_r. reflexivity.
       + intros k' x Hk'. rewrite (A7 k' x Hk'). rewrite orb_false_r. reflexivity.
   Qed.
 
@@ -707,19 +785,20 @@ Section Dom.
   Lemma str_dedup_NoDup l : NoDup (dedup str_eqb l).
   Proof. apply dedup_NoDup. apply str_eqb_eq. Qed.
 
+  (** the targets are the first occurrences of the selector answers, in answer order *)
+  Lemma collect_eq O sp_ pp tau' lim items :
+    collect G O sp_ pp tau' lim items = dedup str_eqb (flat_map (sel_answers G O sp_ tau' lim) items).
+  Proof. reflexivity. Qed.
+
   Lemma collect_NoDup O sp_ pp tau' lim items : ord_ok O -> NoDup (collect G O sp_ pp tau' lim items).
-  Proof.
-    intros [_ Hs]. unfold collect. eapply Permutation_NoDup; [apply Permutation_sym, Hs|]. apply str_dedup_NoDup.
-  Qed.
+  Proof. intros _. rewrite collect_eq. apply str_dedup_NoDup. Qed.
 
   Lemma collect_In O sp_ pp tau' lim items x : ord_ok O ->
     In x (collect G O sp_ pp tau' lim items) <-> exists it, In it items /\ In x (sel_answers G O sp_ tau' lim it).
   Proof.
-    intros [_ Hs]. unfold collect. split.
-    - intros H. apply (Permutation_in _ (Hs _ _)) in H. apply (proj1 (dedup_In str_eqb str_eqb_eq _ _)) in H.
-      apply in_flat_map in H. exact H.
-    - intros H. apply (Permutation_in _ (Permutation_sym (Hs _ _))). apply (proj2 (dedup_In str_eqb str_eqb_eq _ _)).
-      apply in_flat_map. exact H.
+    intros _. rewrite collect_eq. split.
+    - intros H. apply (proj1 (dedup_In str_eqb str_eqb_eq _ _)) in H. apply in_flat_map in H. exact H.
+    - intros H. apply (proj2 (dedup_In str_eqb str_eqb_eq _ _)). apply in_flat_map. exact H.
   Qed.
 
   Lemma firstn_incl {A} n (l : list A) : incl (firstn n l) l.
@@ -858,11 +937,13 @@ Section Dom.
   Definition psel (c : cfg) (O : oracles) (pass : nat) (all_mode : bool) (classes : list str) : list event :=
     sel_events (eff_limit c) (class_items (pcls c O pass all_mode classes)).
 
-  Lemma neighbourhood_incl inv T : incl (neighbourhood inv T G) G.
+  Lemma touching_incl inv T : incl (touching inv T G) G.
+  Proof. intros t H. unfold touching in H. apply filter_In in H. tauto. Qed.
+
+  Lemma yielder_blocks_nil c O pass st : yielder_blocks c G O pass st [] = [].
   Proof.
-    intros t H. unfold neighbourhood, out_of, into in H. apply in_app_iff in H.
-    destruct H as [H|H]; [apply filter_In in H; tauto|].
-    destruct inv; [apply filter_In in H; tauto | destruct H].
+    unfold yielder_blocks, traverse. cbn.
+    destruct (c_last_level c); cbn; destruct (c_inverse c); reflexivity.
   Qed.
 
   Lemma ptargets_ok c O pass all_mode classes : c_tau c = tau -> ord_ok O ->
@@ -874,7 +955,6 @@ Section Dom.
 
   Lemma class_pass_spec c O pass st all_mode classes reader :
     c_allow_num c = allow -> c_tau c = tau -> ord_ok O -> Inv st ->
-    pcls c O pass all_mode classes <> [] ->
     (reader = no_reader \/ exists m, reader = consumption tau m (c_cap c)) ->
     let bs := yielder_blocks c G O pass st (ptargets c O pass all_mode classes) in
     let o := class_pass c G O pass st all_mode classes reader in
@@ -884,19 +964,25 @@ Section Dom.
         po_events o = phead c all_mode ++ psel c O pass all_mode classes ++ cut_after_yields n (events_of bs) /\
         po_st o = state_after n st bs)).
   Proof.
-    intros Hal Ht Ho I Hne Hr bs o.
+    intros Hal Ht Ho I Hr bs o.
     destruct (ptargets_ok c O pass all_mode classes Ht Ho) as [HT Hpl].
     destruct (yielder_spec c O pass st _ Hal Ho HT Hpl I) as [Y1 [Y2 [_ [Y4 [Y5 _]]]]]. fold bs in Y1, Y2, Y4, Y5.
     assert (Hobj : Forall obj_ok (yields (events_of bs))).
     { apply Forall_forall. intros x Hx. apply (Permutation_in _ Y1) in Hx. unfold local_graph in Hx.
-      apply in_map_iff in Hx. destruct Hx as [t [<- Hin]]. apply local_obj_ok. eapply neighbourhood_incl; eauto. }
+      apply in_map_iff in Hx. destruct Hx as [t [<- Hin]]. apply local_obj_ok. eapply touching_incl; eauto. }
     subst o. unfold class_pass. fold (pcls c O pass all_mode classes).
     change (collect G O pass pass (c_tau c) (eff_limit c) (class_items (pcls c O pass all_mode classes)))
       with (ptargets c O pass all_mode classes). fold bs.
     fold (phead c all_mode). fold (psel c O pass all_mode classes).
-    destruct (class_items (pcls c O pass all_mode classes)) as [|it its] eqn:Eit.
-    { unfold class_items in Eit. destruct (pcls c O pass all_mode classes); [congruence | discriminate]. }
-    rewrite (cut_at_err_id _ Y2), Y2. cbn [negb].
+    assert (Hev : match class_items (pcls c O pass all_mode classes) with
+                  | [] => if y_empty_shape_map_guard then [] else [EX XAttr]
+                  | _ :: _ => cut_at_err (events_of bs)
+                  end = events_of bs).
+    { destruct (class_items (pcls c O pass all_mode classes)) as [|it its] eqn:Eit; [|apply cut_at_err_id; exact Y2].
+      assert (ET : ptargets c O pass all_mode classes = []).
+      { unfold ptargets. rewrite Eit. reflexivity. }
+      subst bs. rewrite ET, yielder_blocks_nil. reflexivity. }
+    rewrite Hev, Y2. cbn [negb].
     destruct Hr as [-> | [m ->]].
     - unfold no_reader. cbn. split; [reflexivity|]. split; [exact Y4|]. left. split; reflexivity.
     - destruct (consumption_cases m (c_cap c) _ Hobj) as [-> | [n [Hc Ec]]]; [|rewrite Ec]; cbn.
@@ -937,7 +1023,6 @@ Section Dom.
 
   Lemma run_class_spec c all_mode classes O :
     c_allow_num c = allow -> c_tau c = tau -> ord_ok O ->
-    (forall pass, pcls c O pass all_mode classes <> []) ->
     let r := run_class c all_mode classes O in
     let bs1 := yielder_blocks c G O 1 lst0 (ptargets c O 1 all_mode classes) in
     exists st2,
@@ -949,12 +1034,12 @@ Section Dom.
           r_p1 r = phead c all_mode ++ psel c O 1 all_mode classes ++ cut_after_yields n (events_of bs1) /\
           st2 = state_after n lst0 bs1)).
   Proof.
-    intros Hal Ht Ho Hne r bs1. subst r. unfold run_class. rewrite Ht.
+    intros Hal Ht Ho r bs1. subst r. unfold run_class. rewrite Ht.
     set (m := if all_mode then TAll else TClasses classes).
-    destruct (class_pass_spec c O 1 lst0 all_mode classes (consumption tau m (c_cap c)) Hal Ht Ho Inv0 (Hne 1)
+    destruct (class_pass_spec c O 1 lst0 all_mode classes (consumption tau m (c_cap c)) Hal Ht Ho Inv0
                 (or_intror (ex_intro _ m eq_refl))) as [K1 [K2 K3]].
     rewrite K1.
-    destruct (class_pass_spec c O 2 _ all_mode classes no_reader Hal Ht Ho K2 (Hne 2) (or_introl eq_refl))
+    destruct (class_pass_spec c O 2 _ all_mode classes no_reader Hal Ht Ho K2 (or_introl eq_refl))
       as [L1 [L2 L3]].
     exists (po_st (class_pass c G O 1 lst0 all_mode classes (consumption tau m (c_cap c)))).
     split; [exact K2|]. split; [exact L1|]. cbn [r_p1 r_p2 r_ok]. split.
@@ -994,19 +1079,19 @@ Proof. apply firstn_all. Qed.
 
 (** (a) class modes *)
 Lemma triples_class c G O all_mode classes :
-  ord_ok O -> dom c G -> (forall pass, pcls G c O pass all_mode classes <> []) ->
+  ord_ok O -> dom c G ->
   let r := run_class G c all_mode classes O in
   let T1 := ptargets G c O 1 all_mode classes in
   let T2 := ptargets G c O 2 all_mode classes in
   r_ok r = true /\
-  Permutation (yields (r_p2 r)) (local_graph (neighbourhood (c_inverse c) T2 G)) /\
+  Permutation (yields (r_p2 r)) (local_graph (touching (c_inverse c) T2 G)) /\
   exists full1,
-    Permutation full1 (local_graph (neighbourhood (c_inverse c) T1 G)) /\
+    Permutation full1 (local_graph (touching (c_inverse c) T1 G)) /\
     (yields (r_p1 r) = full1 \/
      ((0 < c_cap c)%Z /\ all_mode = false /\ exists n, yields (r_p1 r) = firstn n full1)).
 Proof.
-  intros Ho [Hd Hn] Hne r T1 T2.
-  destruct (run_class_spec (c_allow_num c) (c_tau c) G Hd Hn c all_mode classes O eq_refl eq_refl Ho Hne)
+  intros Ho [Hd Hn] r T1 T2.
+  destruct (run_class_spec (c_allow_num c) (c_tau c) G Hd Hn c all_mode classes O eq_refl eq_refl Ho)
     as [st2 [I2 [Hok [E2 E1]]]].
   fold r in Hok, E2, E1. split; [exact Hok|].
   destruct (ptargets_ok (c_allow_num c) (c_tau c) G Hd c O 2 all_mode classes eq_refl Ho) as [HT2 Hp2].
@@ -1031,16 +1116,16 @@ Lemma dom_with_cache b c G : dom c G -> dom (with_cache b c) G.
 Proof. intros H; exact H. Qed.
 
 Lemma cache_same_class c G O all_mode classes :
-  ord_ok O -> dom c G -> (forall pass, pcls G c O pass all_mode classes <> []) ->
+  ord_ok O -> dom c G ->
   let rc := run_class G (with_cache true c) all_mode classes O in
   let rn := run_class G (with_cache false c) all_mode classes O in
   Permutation (yields (r_p2 rc)) (yields (r_p2 rn)) /\
   (((c_cap c <= 0)%Z \/ all_mode = true) -> Permutation (yields (r_p1 rc)) (yields (r_p1 rn))).
 Proof.
-  intros Ho Hd Hne rc rn.
-  destruct (triples_class (with_cache true c) G O all_mode classes Ho (dom_with_cache true c G Hd) Hne)
+  intros Ho Hd rc rn.
+  destruct (triples_class (with_cache true c) G O all_mode classes Ho (dom_with_cache true c G Hd))
     as [_ [A2 [f1 [A1 A1']]]].
-  destruct (triples_class (with_cache false c) G O all_mode classes Ho (dom_with_cache false c G Hd) Hne)
+  destruct (triples_class (with_cache false c) G O all_mode classes Ho (dom_with_cache false c G Hd))
     as [_ [B2 [g1 [B1 B1']]]].
   fold rc in A2, A1'. fold rn in B2, B1'. cbn [c_inverse with_cache c_cap] in *.
   split.
@@ -1120,7 +1205,7 @@ Proof.
 Qed.
 
 Lemma cache_log_class c G O all_mode classes :
-  ord_ok O -> dom c G -> (forall pass, pcls G c O pass all_mode classes <> []) ->
+  ord_ok O -> dom c G ->
   ((c_cap c <= 0)%Z \/ all_mode = true) ->
   let rc := run_class G (with_cache true c) all_mode classes O in
   let rn := run_class G (with_cache false c) all_mode classes O in
@@ -1128,14 +1213,14 @@ Lemma cache_log_class c G O all_mode classes :
   List.length (log_of rc) <= List.length (log_of rn) /\
   NoDup (filter is_fetch (log_of rc)).
 Proof.
-  intros Ho [Hd Hn] Hne Hfull rc rn.
+  intros Ho [Hd Hn] Hfull rc rn.
   set (al := c_allow_num c). set (tau := c_tau c).
   set (T1 := ptargets G c O 1 all_mode classes). set (T2 := ptargets G c O 2 all_mode classes).
   destruct (ptargets_ok al tau G Hd c O 1 all_mode classes eq_refl Ho) as [HT1 Hp1].
   destruct (ptargets_ok al tau G Hd c O 2 all_mode classes eq_refl Ho) as [HT2 Hp2].
   fold T1 in HT1, Hp1. fold T2 in HT2, Hp2.
   (* the run with the cache *)
-  destruct (run_class_spec al tau G Hd Hn (with_cache true c) all_mode classes O eq_refl eq_refl Ho Hne)
+  destruct (run_class_spec al tau G Hd Hn (with_cache true c) all_mode classes O eq_refl eq_refl Ho)
     as [sc [Ic [_ [C2 C1]]]].
   fold rc in C2, C1. rewrite !ptargets_with_cache in C2, C1. fold T1 in C1. fold T2 in C2.
   destruct C1 as [[C1 Esc] | [n [Hc [Ha _]]]]; [|destruct Hfull; [cbn in Hc; lia | congruence]].
@@ -1144,7 +1229,7 @@ Proof.
   destruct (yielder_spec al tau G Hd Hn (with_cache true c) O 2 sc T2 eq_refl Ho HT2 Hp2 Ic)
     as [_ [_ [Qc2 _]]].
   (* the run without *)
-  destruct (run_class_spec al tau G Hd Hn (with_cache false c) all_mode classes O eq_refl eq_refl Ho Hne)
+  destruct (run_class_spec al tau G Hd Hn (with_cache false c) all_mode classes O eq_refl eq_refl Ho)
     as [sn [In_ [_ [N2 N1]]]].
   fold rn in N2, N1. rewrite !ptargets_with_cache in N2, N1. fold T1 in N1. fold T2 in N2.
   destruct N1 as [[N1 _] | [n [Hc [Ha _]]]]; [|destruct Hfull; [cbn in Hc; lia | congruence]].
@@ -1239,7 +1324,7 @@ Lemma triples_map c G O items :
   let r := run c (MShapeMap items) G O in
   let T := collect G O 1 2 (c_tau c) (-1) items in
   r_ok r = true /\ yields (r_p1 r) = [] /\
-  Permutation (yields (r_p2 r)) (local_graph (neighbourhood (c_inverse c) T G)) /\
+  Permutation (yields (r_p2 r)) (local_graph (touching (c_inverse c) T G)) /\
   queries (r_p2 r) = map (fun a => (QPO, a)) T ++ (if c_inverse c then map (fun a => (QSP, a)) T else []).
 Proof.
   intros Ho Hdm Hit r T. pose proof Hdm as [Hd Hn].
